@@ -384,6 +384,20 @@ class RangeComp:
         return 'RangeComp'
 
 
+class LazyRangeComp:
+    """(elt for j in range(lo, hi) if conds) over a long concrete range whose conditions need case splits (calls of
+    functions under contract / inlined functions that branch): only `next()` is modelled, as an over-approximation --
+    either some j of the range for which the conditions, *executed as code* with the target bound to j, are all true
+    (not necessarily the first such j: the same as RangeComp), or exhaustion (default / StopIteration) without any
+    knowledge about the range.  That the conditions change no object that existed before is a frame obligation (they are executed for one j only)."""
+
+    def __init__(self, g, elt, rng, scope):
+        self.g, self.elt, self.rng, self.scope = g, elt, rng, scope
+
+    def __repr__(self):
+        return 'LazyRangeComp'
+
+
 class SymSet:
     """set(KeyComp): immutable; only membership is modelled"""
 
@@ -450,7 +464,15 @@ def ev_GeneratorExp(self, n):
         return KeyComp(out)
     if isinstance(it, range) and len(it) > 64 and it.step == 1:
         j = self.fresh_sym('int', 'gj')
-        guard, ev = _eval_bound(self, g, n.elt, j)
+        n0 = len(self.pc)
+        try:
+            guard, ev = _eval_bound(self, g, n.elt, j)
+        except Unsupported as e:
+            if 'case split inside a quantifier body' not in str(e):
+                raise
+            # the filter cannot be a term (it calls functions that branch): evaluated as code at next() instead
+            del self.pc[n0:]
+            return LazyRangeComp(g, n.elt, it, list(self.scope))
         return RangeComp(j, z3.And(j.t >= it.start, j.t < it.stop, guard), ev)
     # anything else: the generic unrolling, without evaluating the iterable twice
     out = []
@@ -528,6 +550,32 @@ def m_next(ex, it, *default):
                 k0 = ex.fresh_sym(k.k, 'found')
                 ex.assume(mk_bool(z3.substitute(guard, (k.t, k0.t))))
                 return _subst(ex, ev, k, k0)
+        if default:
+            return default[0]
+        ex.raise_(StopIteration)
+    if isinstance(it, LazyRangeComp):
+        if ex.quant or ex.spec_mode:
+            raise Unsupported('next() of a symbolic generator in a specification')
+        if ex.decide([True, True], 'next-of-a-filtered-range') == 0:
+            r = ex.fresh_sym('int', 'first')
+            ex.assume(mk_bool(z3.And(r.t >= it.rng.start, r.t < it.rng.stop)))
+            frame = ex.alloc(Frame())
+            saved_scope = ex.scope
+            ex.scope = [frame] + list(it.scope)
+            # the filter is executed for this one j only: that it changes nothing is an obligation (frame#...genexp-filter)
+            snap = ex.fresh_name('genexp-filter')
+            ex.snapshot(snap)
+            try:
+                ex.assign(it.g.target, r)
+                for c in it.g.ifs:
+                    if not ex.branch(ex.truth(ex.eval(c))):
+                        raise Infeasible()  # next() does not return a j that the filter rejects
+                ex.cfg.check_frame(ex, 'genexp', snap=snap, modifies=[], label='genexp-filter')
+                return ex.eval(it.elt)
+            finally:
+                ex.scope = saved_scope
+        # exhausted: nothing is assumed about the range (over-approximation: this outcome is always explored)
+        ex.abstraction_used = True
         if default:
             return default[0]
         ex.raise_(StopIteration)
